@@ -73,15 +73,13 @@ def writer_layouts(prog):
     return eng, finals
 
 
-def format_specs(prog):
+def format_specs(finals):
+    """Format specs under which each numeric field reaches the line, read off the path layouts (not the syntax)."""
     specs = {}
-    for q in ("Atom.get_common_string_rep", "Atom.get_pqr_string"):
-        fn = prog.func("structures.py", q).node
-        for n in walk_no_defs(fn):
-            if isinstance(n, ast.FormattedValue):
-                k = source_of(n.value)
-                if k and n.format_spec is not None:
-                    specs.setdefault(k, []).append(try_fold(n.format_spec))
+    for f in finals:
+        for seg in f.result.segs:
+            if seg.kind == "fld" and seg.src in MIN_DECIMALS and seg.spec not in specs.setdefault(seg.src, []):
+                specs[seg.src].append(seg.spec)
     return specs
 
 
@@ -350,7 +348,7 @@ def check(prog, rep):
 
     # ------------------------------------------------------------------ R4
     r4 = rep.rule("R4", "format specs keep >=3 / >=4 / >=4 decimals for coordinates / charge / radius", floor=5)
-    specs = format_specs(prog)
+    specs = format_specs(finals)
     for src, need in MIN_DECIMALS.items():
         sp = specs.get(src, [])
         decs = []
